@@ -156,6 +156,34 @@ impl P for Po {
     }
 }
 
+/// Totally ordered by `Ord`, only partially by `PartialOrd` (like a float wrapper whose `Ord` is `total_cmp`): `partial_cmp` must come from the field's `PartialOrd`.
+#[derive(Debug, Clone, Copy, PartialEq, Eq, Hash, Default)]
+pub struct Wo(pub u8);
+impl Ord for Wo {
+    fn cmp(&self, o: &Self) -> Ordering {
+        self.0.cmp(&o.0)
+    }
+}
+impl PartialOrd for Wo {
+    fn partial_cmp(&self, o: &Self) -> Option<Ordering> {
+        if self.0 != o.0 && (self.0 | o.0) & 0x80 != 0 {
+            None
+        } else {
+            Some(self.0.cmp(&o.0))
+        }
+    }
+}
+impl Gen for Wo {
+    fn gen<S: Src>(s: &mut S) -> Self {
+        Wo(s.u8())
+    }
+}
+impl P for Wo {
+    fn p(&self) -> u8 {
+        self.0
+    }
+}
+
 /// Not reflexive (like a float holding NaN): a value with the top bit set is neither equal to nor comparable with anything, itself included.
 #[derive(Debug, Clone, Copy)]
 pub struct Nr(pub u8);
